@@ -280,7 +280,8 @@ func (o *ObjectSchema) extractPropertyValue(propertyID string, v reflect.Value, 
 	if property.emptyIsDefault {
 		// Handle the case where the empty value corresponds to the default value.
 		defaultValue := reflect.New(property.ReflectedType()).Elem().Convert(valPtr.Type()).Interface()
-		if defaultValue == value {
+		// DeepEqual, as in validateStruct: == panics on slices and maps.
+		if reflect.DeepEqual(defaultValue, value) {
 			return nil, nil
 		}
 	}
